@@ -1,4 +1,5 @@
 import Shovel.Model.Schema
+import Shovel.Gen.Routes
 /-
   C16: schema generation (AddRequiredFields / AddUniqueIndex / union / ValidateColRefs).
   All proofs go through the GENERATED tables `Shovel.Gen.Config.required` and
@@ -418,5 +419,10 @@ example : (addUnique (addRequired
 
 /-- ValidateColRefs rejects a selected input without a column -/
 example : colRefsOK { transferIg with cols := ["ev_to", "block_time"] } = false := by decide +kernel
+
+/-- **print_schema_is_ddl** (C16): the schema the program PRINTS (`shovel -print-schema`, the route taken with
+    `-skip-migrate`) is what `config.DDL` computes for the whole configuration — the merged definitions
+    `union_covers` is about — and nothing else: the flag's block ranges over exactly that expression. -/
+theorem print_schema_is_ddl : Shovel.Gen.Routes.printSchemaRanges = ["config.DDL(conf)"] := by decide +kernel
 
 end Shovel.Schema
